@@ -515,6 +515,65 @@ func TestVerifC12Reject(t *testing.T) {
 	rep := &simReport{Extra: map[string]any{}}
 	simOnStall("c12r_result.json", rep)
 	defer simWriteReport("c12r_result.json", rep)
+	// "each call is sent to the region owning its key": a batch with keys on, just below and just above region boundaries,
+	// with every subset of the table's three regions known to the client beforehand
+	for known := 0; known < 8; known++ {
+		name := fmt.Sprintf("route/known-regions=%03b", known)
+		verifsim.Bubble(t, func(t *testing.T) {
+			tr := &verifsim.Trace{}
+			cl := verifsim.NewCluster(tr)
+			cl.AddServer("s1")
+			cl.AddServer("s2")
+			regs := cl.CreateTable("t", [][]byte{[]byte("g"), []byte("p")}, []string{"s1", "s2", "s1"})
+			c := newSimClient(cl, RpcQueueSize(5))
+			for i, k := range []string{"a0", "h0", "q0"} {
+				if known&(1<<i) != 0 {
+					g, _ := hrpc.NewGet(context.Background(), []byte("t"), []byte(k))
+					c.Get(g)
+				}
+			}
+			synctest.Wait()
+			keys := []string{"f\xff", "g", "g\x00", "o\xff\xff", "p", "p\x00", "", "zz"}
+			var batch []hrpc.Call
+			for _, k := range keys {
+				if k == "" {
+					continue // (an empty row key is not a legal mutation)
+				}
+				p, _ := hrpc.NewPut(context.Background(), []byte("t"), []byte(k), map[string]map[string][]byte{"f": {"q": []byte("v")}})
+				batch = append(batch, p)
+			}
+			res, ok := c.SendBatch(context.Background(), batch)
+			synctest.Wait()
+			rep.Scenarios++
+			rep.Distinct++
+			if !ok {
+				for i, r := range res {
+					if r.Error != nil {
+						rep.bad("batch-call-misrouted", "%s: the call for key %q failed with %v on a healthy cluster", name, batch[i].Key(), r.Error)
+					}
+				}
+			}
+			cl.Lock()
+			for _, e := range cl.Execs {
+				if e.Table != "t" {
+					continue
+				}
+				var owner *verifsim.Region
+				for _, r := range regs {
+					if r.Contains([]byte(e.Row)) {
+						owner = r
+					}
+				}
+				if owner == nil || e.Region != string(owner.Name) || e.Server != owner.Host {
+					rep.bad("batch-call-misrouted", "%s: key %q was executed at region %q on %s; its owner is %v", name, e.Row, e.Region, e.Server, owner)
+				}
+			}
+			cl.Unlock()
+			c.Close()
+			time.Sleep(time.Minute)
+			synctest.Wait()
+		})
+	}
 	kinds := []string{"othertable", "duplicate", "skipbatch-get", "scan", "skipbatch-put"}
 	for n := 1; n <= 4; n++ {
 		for pos := 0; pos < n; pos++ {
